@@ -607,7 +607,18 @@ func (e *c04Eng) isQuiet(useDump bool) bool {
 	}
 	var pendingGids []int64
 	for _, th := range e.threads {
-		if th.done || th.pending {
+		if th.done {
+			continue
+		}
+		if th.pending {
+			// parked at the OnSubscribe handler: quiet only once the goroutine that called the handler has
+			// returned (finish sets gid = -1); otherwise its late finish() would hit the goroutine that the
+			// handler release starts for the same thread
+			if th.gid != -1 {
+				e.why["pending-not-returned"]++
+				e.mu.Unlock()
+				return false
+			}
 			continue
 		}
 		if th.gid == 0 {
